@@ -1,4 +1,6 @@
 import Dbg.Lemmas.KmerExtend
+import Dbg.Lemmas.KmerRc
+import Dbg.Lemmas.KmerOrder
 /-! # C10 — Packed k-mers behave as length-K strings
 
 `Kmer.toSeq c s` is the string read from storage `s` by the model of `get`; every theorem says that an
@@ -82,6 +84,21 @@ theorem C10_fromBytes (c : Cfg) (hc : c.WF) (bytes : List Nat) (hl : c.K ≤ byt
     rw [k2 q h1]
     have : q < bytes.length := by omega
     simp [h1, this]
+
+/-- C10 (reverse complement): `rc` refines reverse complement of the string and re-establishes the invariant,
+    for every storage width that has a `reverse_by_twos` ladder (masks and shifts extracted from kmer.rs) -/
+theorem C10_rc (c : Cfg) (hc : c.WF) (hw : c.w ∈ [8, 16, 32, 64, 128]) (s : St c) :
+    toSeq c (rc c s) = KSpec.rc (toSeq c s) ∧ Inv c (rc c s) :=
+  ⟨toSeq_rc hc hw s, inv_rc hc hw s⟩
+
+/-- C10 (rank): under the invariant `to_u64` is the base-4 value of the string (K ≤ 32 so that it fits) -/
+theorem C10_toU64 (c : Cfg) (hc : c.WF) (hK : c.K ≤ 32) (s : St c) (hs : Inv c s) :
+    toU64 c s = some (Lex.val (toSeq c s)) := by
+  have h1 := toNat_lt_of_inv s hs
+  have h2 : (4 : Nat) ^ c.K ≤ 4 ^ 32 := Nat.pow_le_pow_right (by decide) hK
+  unfold toU64
+  rw [if_pos (by have : (4:Nat) ^ 32 = 2 ^ 64 := by decide
+                 omega), toNat_eq_val hc s hs]
 
 /-- the hypotheses are satisfiable: Kmer5 (u16, partial width) -/
 example : toSeq ⟨16, 5, true⟩ (extendRight ⟨16, 5, true⟩ 0x1B#16 2) = KSpec.extendRight (toSeq ⟨16, 5, true⟩ 0x1B#16) 2 := by decide
